@@ -1,6 +1,6 @@
 (* C13 - timeouts, deadlines and cancellation bound every blocked Acquire. *)
 From Coq Require Import ZArith List Bool.
-From GCL Require Import Model.Waiters Proofs.WaitersProofs.
+From GCL Require Import Model.Waiters Proofs.WaitersProofs Proofs.WaitersTimers.
 Import ListNotations.
 Open Scope Z_scope.
 
@@ -33,3 +33,25 @@ Theorem C13_queue_timeout s t pref i c : w_kind (ws_cfg s) = KQueue -> nth_error
   ws_busy (fire s t pref) = ws_busy s.
 Proof. exact (fire_queue s t pref i c). Qed.
 Print Assumptions C13_queue_timeout.
+
+(* A cancellation refuses a blocked caller at once, at the instant of the cancellation, without touching the delegate's count:
+   always for the blocking and deadline limiters, and for the queue limiter when BacklogEvictDoneCtx is set. *)
+Theorem C13_cancel_refuses s i c : nth_error (ws_callers s) i = Some c -> blocked c = true ->
+  (w_kind (ws_cfg s) <> KQueue \/ w_evict (ws_cfg s) = true) ->
+  nth_error (ws_callers (cancel s i)) i = Some (mk_caller 2 (ws_now s) 0 true) /\ ws_busy (cancel s i) = ws_busy s.
+Proof. exact (cancel_refuses s i c). Qed.
+Print Assumptions C13_cancel_refuses.
+
+(* Timers firing at instant t (queue backlog timeout, deadline): every caller is left as it was or leaves the blocked state, and every
+   caller that was blocked with its timer due at t leaves it (deadline: after one last attempt at the delegate). *)
+Theorem C13_fire_clears s t pref : w_kind (ws_cfg s) <> KBlocking ->
+  pointwise (fire_rel t) (ws_callers s) (ws_callers (fire s t pref)).
+Proof. exact (fire_clears s t pref). Qed.
+Print Assumptions C13_fire_clears.
+
+(* Hence, whatever the state and however far the clock is advanced, nobody is left blocked past the instant its timer was due
+   (queue and deadline limiters; the model's clock needs fuel for one firing instant per caller - the replay runs it with 2000). *)
+Theorem C13_nobody_past_due fuel s target pref c : w_kind (ws_cfg s) <> KBlocking -> (length (ws_callers s) <= fuel)%nat ->
+  In c (ws_callers (advance fuel s target pref)) -> blocked c = true -> 0 < c_due c -> target < c_due c.
+Proof. exact (advance_nobody_past_due fuel s target pref c). Qed.
+Print Assumptions C13_nobody_past_due.
